@@ -222,3 +222,97 @@ func ZZ_C05_A2_handlers_debit_only_authorized() {
 		}
 	}
 }
+
+// C05 / A2 for staked funds: the address a validator's stake and rewards are paid out to (Output)
+// belongs to the owner of the funds; for a non-custodial validator the operator key may edit the
+// validator but must not redirect its funds. Real HandleMessageEditStake on a non-custodial
+// validator (operator = account 0, owner/output = account 1) with any signer and any new output:
+//   the output address changes  =>  the transaction was signed by the current output (owner) key.
+//
+//zz:harness mode=int unwind=60 maxpaths=60000 timebudget=1200
+//zz:reach A2.editstake.ok A2.editstake.output-changed
+func ZZ_C05_A2_edit_stake_cannot_redirect_funds() {
+	sm, _ := zzFSM(5)
+	zzProtocol(sm, zzConcrete(zzInt("protocol"), 1, 2))
+	v := &Validator{Address: zzAddr(0), PublicKey: zzAddr(4), StakedAmount: zzN64("stake"), Committees: []uint64{1}, Output: zzAddr(1), Delegate: zzBool("delegate")}
+	zzAssume(v.StakedAmount >= 1 && v.StakedAmount < 1<<60)
+	supply := &Supply{}
+	if sm.SetValidators([]*Validator{v}, supply) != nil {
+		panic("validators")
+	}
+	for i := 0; i < 3; i++ {
+		bal := zzN64("bal")
+		zzAssume(bal < 1<<60)
+		supply.Total += bal
+		if sm.SetAccount(&Account{Address: zzAddr(i), Amount: bal}) != nil {
+			panic("account")
+		}
+	}
+	if sm.SetSupply(supply) != nil {
+		panic("supply")
+	}
+	sm.ResetCaches()
+	signer, newOut := zzConcrete(zzInt("signer"), 0, 2), zzConcrete(zzInt("newOutput"), 0, 2)
+	msg := &MessageEditStake{Address: zzAddr(0), Amount: zzN64("newAmount"), Committees: []uint64{1}, OutputAddress: zzAddr(newOut), Signer: zzAddr(signer), Compound: zzBool("compound")}
+	if !v.Delegate {
+		msg.NetAddress = "tcp://x"
+	}
+	if sm.HandleMessageEditStake(msg) != nil {
+		return
+	}
+	zzReach("A2.editstake.ok")
+	w, err := sm.GetValidator(crypto.NewAddress(zzAddr(0)))
+	if err != nil {
+		return
+	}
+	if !bytes.Equal(w.Output, zzAddr(1)) {
+		zzReach("A2.editstake.output-changed")
+		zzAssert("A2.editstake.only-the-owner-key-redirects-the-funds", signer == 1)
+	}
+}
+
+// C05 / A1 at block level: the signatures of a block are verified in one batch and the verdicts are
+// mapped back to transactions. A block of three send transactions, each with an arbitrary claimed
+// sender, an arbitrary signing key and a signature that is genuine or not: a transaction is executed
+// only if ITS OWN signature is genuine and ITS signer is the debited account - whatever the
+// neighbouring transactions look like (a transaction that fails for another reason after its
+// signature was queued must not shift the verdicts of the ones behind it).
+//
+//zz:harness mode=int unwind=80 maxpaths=200000 timebudget=2400 replay=model param.txs@quick=3
+//zz:reach A1.block.executed A1.block.rejected-for-signature
+func ZZ_C05_A1_block_signature_verdicts_stay_with_their_transaction() {
+	// balances are fixed and ample: the quantifier here is over signatures and signers, not money
+	var w zzWorldVals
+	for i := range w.bal {
+		w.bal[i] = 1000000000
+	}
+	sm, _ := zzBuildWorld(w)
+	n := zzParam("txs", 3)
+	var specs []zzTxSpec
+	var txs [][]byte
+	for i := 0; i < n; i++ {
+		sp := zzTxSpec{from: zzConcrete(zzInt("from"), 0, 1), to: 2, signer: zzConcrete(zzInt("signer"), 0, 1), badSig: zzBool("badSig"),
+			amount: uint64(i + 1), fee: 10000, created: 10, time: uint64(i + 1), net: 1, chain: 1}
+		specs = append(specs, sp)
+		txs = append(txs, zzSendTxBytes(sp))
+	}
+	r := &lib.ApplyBlockResults{}
+	if sm.ApplyTransactions(context.Background(), txs, r, false) != nil {
+		return
+	}
+	for i, sp := range specs {
+		executed := false
+		for _, t := range r.Txs {
+			if bytes.Equal(t, txs[i]) {
+				executed = true
+			}
+		}
+		if executed {
+			zzReach("A1.block.executed")
+			zzAssert("A1.block.executed-transaction-carries-a-genuine-signature", !sp.badSig)
+			zzAssert("A1.block.executed-transaction-is-signed-by-the-debited-account", sp.signer == sp.from)
+		} else if sp.badSig {
+			zzReach("A1.block.rejected-for-signature")
+		}
+	}
+}
